@@ -143,7 +143,16 @@ func init() {
 			o.Mid = true
 		}
 	})
-	reg("C06", false, nil)
+	register(&Check{ID: "C06", Level: "model_checking", Workers: 16, Rule: fmt.Sprintf(lifeRule, ", (c) sponsored orders whose owner DID has no payment address (refunds parked for the DID)"), Assumptions: lifeAssumptions,
+		Scenarios: func(tier string) []*engine.Scenario {
+			out := lifeFamily("C06", tier, props("C06"), nil)
+			sp := r1Life("C06", tier, props("C06"))
+			sp.ID = "C06-life-sponsored"
+			sp.NoOwnerPA, sp.NoPlain, sp.Drain, sp.Migrate, sp.Renew = true, true, false, false, false
+			sp.Cancel = true
+			sp.Depth = 5
+			return append(out, LifeScenario(sp))
+		}})
 	for _, id := range []string{"C07", "C14"} {
 		id := id
 		register(&Check{ID: id, Level: "model_checking", Workers: 16, Rule: fmt.Sprintf(lifeRule, ", (c) capacity pledge add/remove around the free-capacity and rounding boundaries interleaved with store/complete/terminate/expiry"), Assumptions: lifeAssumptions,
